@@ -5,7 +5,7 @@ use crate::bridge::*;
 use crate::gen;
 use crate::monitor::{digest, observe, par_items, Cfg, Ctx, Report};
 use crate::oracle::dsym::MSym;
-use crate::oracle::groups;
+use crate::oracle::groups::{self, Pres, Word};
 use crate::oracle::pi1;
 use crate::oracle::snf;
 use crate::rng::Rng;
@@ -57,6 +57,7 @@ pub fn judge(ctx: &mut Ctx, inp: &Input, inv: &InputInvariants, repetitions: usi
     let input = || json!({"input": inp.name, "set": inp.set.to_text()});
     let mut seen_raw = BTreeSet::new();
     let mut seen_traces = BTreeSet::new();
+    let mut none_witness: Option<(usize, Vec<String>)> = None;
     for rep in 0..repetitions {
         ctx.eval();
         let (res, trace) = match run_simplify(&inp.set) {
@@ -81,6 +82,13 @@ pub fn judge(ctx: &mut Ctx, inp: &Input, inv: &InputInvariants, repetitions: usi
         let r = match res {
             None => {
                 ctx.count("result.none");
+                if inp.corpus_index.is_some() {
+                    // a torus cover of a known-euclidean symbol: "no result" in one numbering / call and a
+                    // D-set in another is a result that depends on the numbering (marker: empty image)
+                    ctx.count("result.none_on_a_corpus_torus_cover");
+                    results.push(vec![]);
+                    none_witness.get_or_insert((rep, trace.clone()));
+                }
                 continue;
             }
             Some(r) => r,
@@ -170,6 +178,16 @@ pub fn judge(ctx: &mut Ctx, inp: &Input, inv: &InputInvariants, repetitions: usi
             results.push(r.minimal_image().canon_bf_multi());
         }
     }
+    if let Some((rep, trace)) = none_witness {
+        // witness-level report (the per-corpus-symbol comparison in run() only names the symbol)
+        ctx.violation(
+            "no-result-for-a-torus-cover-of-a-known-euclidean-symbol",
+            "simplify::simplify",
+            input(),
+            json!({"repetition": rep, "moves": trace, "repetitions": repetitions, "calls_with_a_result": results.iter().filter(|r| !r.is_empty()).count()}),
+            "for the known-euclidean corpus the canonical minimal image of the result is the same for every numbering of the input (other numberings and calls give the cube)",
+        );
+    }
     ctx.add("distinct_raw_outputs", seen_raw.len() as u64);
     ctx.add("distinct_move_traces", seen_traces.len() as u64);
     if seen_traces.len() >= 2 {
@@ -194,6 +212,50 @@ fn euclidicity_reason(m: &MSym) -> Option<String> {
     .ok()
 }
 
+fn gcd(a: usize, b: usize) -> usize {
+    if b == 0 { a } else { gcd(b, a % b) }
+}
+
+/// Fisher-Yates shuffle driven by a 64-bit LCG (reproduces externally reported numberings exactly).
+pub fn lcg_perm1(n: usize, seed: u64) -> Vec<usize> {
+    let mut state = seed;
+    let mut next = || {
+        state = state.wrapping_mul(6364136223846793005).wrapping_add(1442695040888963407);
+        state >> 33
+    };
+    let mut perm: Vec<usize> = (0..=n).collect();
+    for i in (2..=n).rev() {
+        let j = 1 + (next() as usize) % i;
+        perm.swap(i, j);
+    }
+    perm
+}
+
+/// The lens space L(p,q) as a branch-free D-set with 4p chambers: cosets of <(s0 s1)(s2 s3)^q> in the
+/// Coxeter group [p,2,p] (harness Todd-Coxeter; the library is not involved).
+pub fn lens_space(p: usize, q: usize) -> Option<MSym> {
+    let pw = |a: i64, b: i64, k: usize| -> Word { (0..k).flat_map(|_| [a, b]).collect() };
+    let pres = Pres {
+        ngens: 4,
+        rels: vec![vec![1, 1], vec![2, 2], vec![3, 3], vec![4, 4], pw(1, 2, p), pw(2, 3, 2), pw(3, 4, p), pw(1, 3, 2), pw(1, 4, 2), pw(2, 4, 2)],
+    };
+    let mut h: Word = vec![1, 2];
+    h.extend(pw(3, 4, q));
+    let t = groups::todd_coxeter(&pres, &[h], 40_000)?;
+    if t.rows() != 4 * p {
+        return None;
+    }
+    let n = t.rows();
+    let mut op = vec![vec![0usize; n + 1]; 4];
+    for i in 0..4 {
+        for d in 0..n {
+            op[i][d + 1] = t.act(d, (i + 1) as i64) + 1;
+        }
+    }
+    let m = MSym::from_ops(3, n, op);
+    if m.is_complete_set() && m.ops_are_involutions() && m.far_ops_commute() && three_d::spherical_tiles_and_vertices(&m).is_ok() { Some(m) } else { None }
+}
+
 pub fn build_inputs(cfg: &Cfg) -> Vec<Input> {
     let seed = cfg.seed;
     let mut inputs: Vec<Input> = vec![];
@@ -211,11 +273,52 @@ pub fn build_inputs(cfg: &Cfg) -> Vec<Input> {
                     // the cover as the library numbers it, and many renumberings of the cover itself: which
                     // move fires first depends on the numbering of the set handed to simplify
                     inputs.push(Input { name: format!("pseudo-toroidal cover of corpus symbol {} ({})", gen::EUCLIDEAN_CORPUS[ci], vn), set: MSym::from_ops(3, cov.n, cov.op.clone()), topology_clause: true, fed_by_euclidicity: true, corpus_index: Some(ci) });
-                    for r in 0..cfg.tier.pick(6, 24) {
+                    for r in 0..cfg.tier.pick(10, 48) {
                         let cov2 = cov.renumbered(&rng.perm1(cov.n));
                         inputs.push(Input { name: format!("pseudo-toroidal cover of corpus symbol {} ({}), cover renumbered #{}", gen::EUCLIDEAN_CORPUS[ci], vn, r), set: MSym::from_ops(3, cov2.n, cov2.op.clone()), topology_clause: true, fed_by_euclidicity: true, corpus_index: Some(ci) });
                     }
                 }
+            }
+        }
+    }
+    // duals of the corpus symbols (euclidean as well; the cube is self-dual, so the expected image is the same)
+    for (ci, c) in gen::corpus().iter().enumerate() {
+        let d = c.dual();
+        if let Ok(Some(cov)) = observe(|| pseudo_toroidal_cover(&to_partial_dsym(&d)).map(|x| from_dsym(&x))) {
+            if cov.is_valid_symbol() && three_d::unbranched(&cov) {
+                inputs.push(Input { name: format!("pseudo-toroidal cover of the dual of corpus symbol {}", gen::EUCLIDEAN_CORPUS[ci]), set: MSym::from_ops(3, cov.n, cov.op.clone()), topology_clause: true, fed_by_euclidicity: true, corpus_index: Some(ci) });
+                for r in 0..cfg.tier.pick(8, 48) {
+                    let cov2 = cov.renumbered(&rng.perm1(cov.n));
+                    inputs.push(Input { name: format!("pseudo-toroidal cover of the dual of corpus symbol {}, cover renumbered #{}", gen::EUCLIDEAN_CORPUS[ci], r), set: MSym::from_ops(3, cov2.n, cov2.op.clone()), topology_clause: true, fed_by_euclidicity: true, corpus_index: Some(ci) });
+                }
+            }
+        }
+    }
+    // fixed numberings that once made simplify lose the manifold (regression inputs; the symbol is the dual
+    // of corpus symbol 553.3 in two of its numberings, the cover is renumbered by a 64-bit LCG shuffle)
+    for (text, seeds) in [("<383.1:4 3:2 4,3 4,1 2 3 4,2 4:4,6 2,4 6>", &[404003u64, 404004, 404005][..]), ("<383.1:4 3:2 4,3 4,1 2 3 4,2 4:4,2 6,6 4>", &[403004u64, 403036, 403005][..])] {
+        let m = msym_from_text(text).unwrap();
+        if let Ok(Some(cov)) = observe(|| pseudo_toroidal_cover(&to_partial_dsym(&m)).map(|x| from_dsym(&x))) {
+            if cov.is_valid_symbol() && three_d::unbranched(&cov) {
+                for &sd in seeds {
+                    let cov2 = cov.renumbered(&lcg_perm1(cov.n, sd));
+                    inputs.push(Input { name: format!("pseudo-toroidal cover of {} (dual of corpus symbol 553.3), cover renumbered by LCG shuffle {} [regression numbering]", text, sd), set: MSym::from_ops(3, cov2.n, cov2.op.clone()), topology_clause: true, fed_by_euclidicity: true, corpus_index: Some(10) });
+                }
+            }
+        }
+    }
+    // lens spaces L(p,q): quotient of the {p,2,p} tiling of the 3-sphere by the cyclic group <x y^q>
+    // (x, y the p-fold rotations of the two factors); 4p chambers, large faces, fundamental group Z_p
+    let lens: Vec<(usize, usize)> = match cfg.tier {
+        crate::monitor::Tier::Quick => vec![(5, 2), (7, 3), (8, 3), (12, 5), (13, 2), (13, 6), (15, 2), (17, 8)],
+        crate::monitor::Tier::Thorough => (3..=24usize).flat_map(|p| (1..p).filter(move |&q| gcd(p, q) == 1 && q <= p / 2 + 1).map(move |q| (p, q))).collect(),
+    };
+    for (p, q) in lens {
+        if let Some(l) = lens_space(p, q) {
+            inputs.push(Input { name: format!("lens space L({},{}) as cyclic quotient of the {{{},2,{}}} tiling (finite fundamental group)", p, q, p, p), set: l.clone(), topology_clause: true, fed_by_euclidicity: false, corpus_index: None });
+            for r in 0..cfg.tier.pick(1, 3) {
+                let l2 = l.renumbered(&rng.perm1(l.n));
+                inputs.push(Input { name: format!("lens space L({},{}) renumbered #{} (finite fundamental group)", p, q, r), set: l2, topology_clause: true, fed_by_euclidicity: false, corpus_index: None });
             }
         }
     }
@@ -268,12 +371,13 @@ pub fn build_inputs(cfg: &Cfg) -> Vec<Input> {
 pub fn run(cfg: &Cfg) -> Report {
     let mut report = Report::new(cfg);
     let inputs = build_inputs(cfg);
+    report.ctx.add("lens_space_inputs", inputs.iter().filter(|i| i.name.starts_with("lens space")).count() as u64);
     let reps = cfg.tier.pick(5, 25);
     let corpus_results: std::sync::Mutex<Vec<(usize, Vec<Vec<Vec<usize>>>)>> = std::sync::Mutex::new(vec![]);
     let ctx = par_items(cfg, &inputs, |ctx, k, inp| {
         let inv = input_invariants(inp);
         let mut results = vec![];
-        let reps = if inp.name.contains("cover renumbered") { (reps / 3).max(2) } else { reps };
+        let reps = if inp.name.contains("[regression numbering]") { 4 * reps } else if inp.name.contains("cover renumbered") { (reps / 3).max(2) } else if inp.name.starts_with("lens space") { 2 * reps } else { reps };
         judge(ctx, inp, &inv, reps, &mut results);
         if let Some(ci) = inp.corpus_index {
             corpus_results.lock().unwrap().push((ci, results));
@@ -313,10 +417,11 @@ pub fn run(cfg: &Cfg) -> Report {
     }
     report.absorb(ctx);
 
-    report.rule = format!("inputs: pseudo-toroidal covers of the 19 corpus symbols computed from 3-5 numberings of the symbol, each cover as returned and under 6-24 random renumberings of the cover itself, pseudo-toroidal covers of every small 3D symbol that passes the euclidicity test's invariant filter, finite universal covers of spherical 3D symbols and their branch-free covers with finite fundamental group; every input repeated {} times (std's per-instance random hash keys make simplify's HashSet iteration, hence its move sequence, vary between calls). Non-trivial = input on which at least one non-merge move fires; distinct = input digests", reps);
+    report.rule = format!("inputs: pseudo-toroidal covers of the 19 corpus symbols computed from 3-5 numberings of the symbol, each cover as returned and under 10-48 random renumberings of the cover itself, the same for the duals of the corpus symbols, fixed regression numberings of the 553.3 family, lens spaces L(p,q) with 4p chambers (p up to 17, thorough 24) built by the harness's own coset enumeration, pseudo-toroidal covers of every small 3D symbol that passes the euclidicity test's invariant filter, finite universal covers of spherical 3D symbols and their branch-free covers with finite fundamental group; every input repeated {} times (std's per-instance random hash keys make simplify's HashSet iteration, hence its move sequence, vary between calls). Non-trivial = input on which at least one non-merge move fires; distinct = input digests", reps);
     report.explanation = "returned set re-read and checked: complete, branch-free, far operations commute, every (0,1,2)- and (1,2,3)-component loopless with curvature exactly 4 (sphere); topology clause: H1 by the harness's textbook presentation + BigInt SNF on both sides, low-index profile up to index 3 (harness search, on the textbook presentation of the result when it has <= 8 generators, else on the library presentation validated by C09); euclidicity inputs: one tile, one vertex, no 2-orbit of length 2; corpus: one canonical minimal image over all numberings and repetitions; move traces from the library hook are recorded per call".into();
-    report.assume("None results are counted, not judged; intermediate states are not judged; the low-index profile of covers with hundreds of chambers uses the library's presentation as an instrument (validated by C09)");
+    report.assume("None results are counted, not judged, except on torus covers of corpus symbols (a result exists in other numberings); intermediate states are not judged; the low-index profile of covers with hundreds of chambers uses the library's presentation as an instrument (validated by C09)");
     report.require_counter("inputs_judged", 50);
+    report.require_counter("lens_space_inputs", 8);
     report.require_counter("homology_compared", 50);
     report.require_counter("low_index_profile_compared", 10);
     report.require_counter("fully_simplified_results", 50);
@@ -335,7 +440,7 @@ pub fn replay(ctx: &mut Ctx, input: &Value) -> bool {
         None => return false,
     };
     let name = input.get("input").and_then(|x| x.as_str()).unwrap_or("").to_string();
-    let inp = Input { topology_clause: name.contains("corpus") || name.contains("finite"), fed_by_euclidicity: name.contains("pseudo-toroidal"), corpus_index: None, name, set };
+    let inp = Input { topology_clause: name.contains("corpus") || name.contains("finite"), fed_by_euclidicity: name.contains("pseudo-toroidal"), corpus_index: if name.contains("corpus symbol") { Some(0) } else { None }, name, set };
     let inv = input_invariants(&inp);
     let mut results = vec![];
     // hash-order dependent: up to 200 repetitions
